@@ -94,6 +94,9 @@ def state_guard(chk, prog):
     chk.ob("G1.state", "statics of the crates this property depends on hold no state between calls (%d static(s): immutable or lazily initialised constants)" % n, True, key="G1:scan")
 
 
+_INCLUDE_MEMO = {}
+
+
 class Check:
     def __init__(self, pid, tier="quick", level="proof"):
         self.pid = pid
@@ -137,18 +140,25 @@ class Check:
         self.ob(rule + ".floor", "%s: matched %d instance(s), floor %d" % (what, count, minimum), count >= minimum,
                 key="floor:" + what)
 
-    def include(self, tag, run_fn, prog, keep=None):
+    def include(self, tag, run_fn, prog, keep=None, keep_ob=None):
         """Run another property's rule set as a part of this one (a clause of this property that is the other property's
         subject, e.g. the wire leg of C05 is C01's codec).  Obligations and violations are re-labelled `<tag>(<rule>)`."""
-        sub = Check(self.pid, self.tier, self.level)
-        run_fn(sub, prog)
+        # a rule set included by several legs of one check (C08 -> C09 -> C07, C08 -> C13 -> C07, ...) is decided once per process
+        import mireval
+        mk = (id(run_fn), getattr(run_fn, "__name__", repr(run_fn)), id(prog), mireval.DEFAULT_LOG_ON, getattr(sys.modules.get("p_ctrl"), "LOG_ON", None))
+        sub = _INCLUDE_MEMO.get(mk) if "<lambda>" not in mk[1] else None
+        if sub is None:
+            sub = Check(self.pid, self.tier, self.level)
+            run_fn(sub, prog)
+            _INCLUDE_MEMO[mk] = sub
         n = 0
+        # keep: by rule label; keep_ob: by (rule, description, location) for rule sets whose obligations are per construct
         for o in sub.obligations:
-            if keep is None or keep(o["rule"]):
+            if (keep is None or keep(o["rule"])) and (keep_ob is None or keep_ob(o["rule"], o["desc"], o["where"] or "")):
                 self.obligations.append({"rule": "%s(%s)" % (tag, o["rule"]), "desc": o["desc"], "ok": o["ok"], "where": o["where"]})
                 n += 1
         for v in sub.violations:
-            if keep is None or keep(v["rule"]):
+            if (keep is None or keep(v["rule"])) and (keep_ob is None or keep_ob(v["rule"], v["msg"], v["where"] or "")):
                 self.violation("%s(%s)" % (tag, v["rule"]), v["key"].split("|", 2)[2], v["msg"], v["where"], v["extra"])
         for a in sub.assumptions:
             if a not in self.assumptions:
@@ -243,3 +253,45 @@ class Check:
         if self.selftest_failures:
             return 3
         return 0
+
+
+def uses_log(prog, crates):
+    """functions of the given crates that expand a log macro (they test log::max_level())"""
+    out = []
+    for f in prog.fns.values():
+        if f.get("crate") not in crates or not f.get("body"):
+            continue
+        for b in f["body"]["blocks"]:
+            t = b["term"]
+            if t["t"] == "call" and t["func"].get("op") == "const" and "fn" in t["func"]:
+                fj = t["func"]["fn"]
+                if (fj.get("resolved") or fj)["name"].startswith("log::"):
+                    out.append(f["name"])
+                    break
+    return out
+
+
+def at_log_levels(*crates):
+    """`log` macros evaluate their arguments only when the record is enabled, so code can behave differently with a logger
+    installed. A rule set whose evaluators take the default level is decided at both extremes of log::max_level() whenever a
+    function of the crates its verdict depends on uses a log macro (one pass otherwise: the level cannot matter)."""
+    def deco(run):
+        def wrapped(chk, prog):
+            import mireval
+            import p_frame
+            users = uses_log(prog, crates)
+            old = mireval.DEFAULT_LOG_ON
+            try:
+                for lo in ((False, True) if users else (False,)):
+                    mireval.DEFAULT_LOG_ON = lo
+                    p_frame._REGEX_CACHE.clear()
+                    run(chk, prog)
+            finally:
+                mireval.DEFAULT_LOG_ON = old
+                p_frame._REGEX_CACHE.clear()
+            if users:
+                chk.assumptions.append("decided at both extremes of the log level (log macros in: %s)" % ", ".join(sorted(set(u.split("::")[-1] for u in users))[:6]))
+        wrapped.__name__ = run.__name__
+        wrapped.__doc__ = run.__doc__
+        return wrapped
+    return deco
